@@ -3,6 +3,7 @@ C13 — Array set functions implement multiset semantics over identical elements
 `Spec.same a b` = same entry word and payload (same JSON value in the same number encoding).
 -/
 import JsonbModel.Proofs.SetRefine
+import JsonbModel.Proofs.SetRefine2
 
 namespace Jsonb.Props
 open Jsonb JV Spec
@@ -33,6 +34,22 @@ theorem C13_overlap_iff (a b : JV) :
 theorem C13_distinct_refines (vs : List JV) (hn : vs.length < 536870912) (hg : goodL vs = true) (buf : Bytes) :
     Fn.arrayDistinct (encodeSpec (arr vs)) buf = .ok (buf ++ encodeSpec (Spec.arrayDistinct (arr vs))) :=
   arrayDistinct_arr vs hn hg buf
+
+/-- byte-level intersection / except / overlap compute the spec functions (count map of the
+second operand = multiset of identities) and write canonical arrays, for array, object and
+scalar operands alike -/
+theorem C13_intersection_refines (a b : JV) (hga : goodTop a = true) (hgb : goodTop b = true)
+    (hea : goodL (Spec.elems a) = true) (heb : goodL (Spec.elems b) = true) (buf : Bytes) :
+    Fn.arraySetOp true (encodeSpec a) (encodeSpec b) buf = .ok (buf ++ encodeSpec (Spec.arrayIntersection a b)) :=
+  arrayIntersection_refines a b hga hgb hea heb buf
+theorem C13_except_refines (a b : JV) (hga : goodTop a = true) (hgb : goodTop b = true)
+    (hea : goodL (Spec.elems a) = true) (heb : goodL (Spec.elems b) = true) (buf : Bytes) :
+    Fn.arraySetOp false (encodeSpec a) (encodeSpec b) buf = .ok (buf ++ encodeSpec (Spec.arrayExcept a b)) :=
+  arrayExcept_refines a b hga hgb hea heb buf
+theorem C13_overlap_refines (a b : JV) (hga : goodTop a = true) (hgb : goodTop b = true)
+    (hea : goodL (Spec.elems a) = true) (heb : goodL (Spec.elems b) = true) :
+    Fn.arrayOverlap (encodeSpec a) (encodeSpec b) = .ok (Spec.arrayOverlap a b) :=
+  arrayOverlap_refines a b hga hgb hea heb
 
 example : encodeSpec (arrayDistinct (arr [num (.uint 1), num (.int 1), num (.uint 1), arr [null], arr [null]]))
     = encodeSpec (arr [num (.uint 1), num (.int 1), arr [null]]) := by decide +kernel
